@@ -209,12 +209,13 @@ func genCall(t *rapid.T, a *Asm, env *EvmEnv, stats *ProgStats) {
 
 // tiny init codes: each at most 32 bytes so that it fits one memory word
 var initCodes = [][]byte{
-	{},                                   // empty init: empty contract
-	{0x60, 0x2a, 0x60, 0x00, 0x55, 0x00}, // sstore(0, 42); stop
-	{0x60, 0x2a, 0x60, 0x01, 0x55, 0x60, 0x00, 0x60, 0x00, 0xfd}, // sstore; revert
-	{0x60, 0x01, 0x60, 0x00, 0x55, 0xfe},                         // sstore; invalid
-	{0x60, 0xff, 0x60, 0x00, 0x53, 0x60, 0x01, 0x60, 0x00, 0xf3}, // runtime = ff (selfdestruct to stack garbage): mstore8(0,0xff); return(0,1)
-	{0x60, 0x00, 0x60, 0x00, 0x53, 0x60, 0x01, 0x60, 0x00, 0xf3}, // runtime = 00 (stop)
+	{}, // empty init: empty contract
+	{0x61, 0x33, 0xff, 0x60, 0x00, 0x52, 0x60, 0x02, 0x60, 0x1e, 0xf3}, // runtime = 33 ff (selfdestruct(caller) on every call): a contract that dies when called and may be paid again afterwards
+	{0x60, 0x2a, 0x60, 0x00, 0x55, 0x00},                               // sstore(0, 42); stop
+	{0x60, 0x2a, 0x60, 0x01, 0x55, 0x60, 0x00, 0x60, 0x00, 0xfd},       // sstore; revert
+	{0x60, 0x01, 0x60, 0x00, 0x55, 0xfe},                               // sstore; invalid
+	{0x60, 0xff, 0x60, 0x00, 0x53, 0x60, 0x01, 0x60, 0x00, 0xf3},       // runtime = ff (selfdestruct to stack garbage): mstore8(0,0xff); return(0,1)
+	{0x60, 0x00, 0x60, 0x00, 0x53, 0x60, 0x01, 0x60, 0x00, 0xf3},       // runtime = 00 (stop)
 	{0x33, 0xff},                         // selfdestruct(caller) during construction
 	{0x60, 0x01, 0x60, 0x02, 0xa1, 0x00}, // log1; stop  (size 2 offset 1? harmless)
 	{0x61, 0x60, 0x01, 0x60, 0x00, 0x52, 0x61, 0x70, 0x00, 0x60, 0x00, 0xf3}, // return 0x7000 bytes: > MaxCodeSize (24576)
